@@ -414,3 +414,187 @@ std_harness!(c09_commit_counts_only_current_voters, {
     std::mem::forget(f);
     std::mem::forget(cfg);
 });
+
+// ------------------------------------------------------------------------------------------
+// Leader-state kernels on a REAL LeaderState (FollowerState::new -> CandidateState::from -> LeaderState::from)
+// ------------------------------------------------------------------------------------------
+use d_engine_core::role_state::RaftRoleState;
+use d_engine_proto::common::LogId;
+fn mk_leader(cfg: &Arc<RaftNodeConfig>) -> LeaderState<VT> {
+    let f = FollowerState::<VT>::new(1, cfg.clone(), None, None);
+    let c = CandidateState::<VT>::from(&f);
+    let l = LeaderState::<VT>::from(&c);
+    std::mem::forget(c);
+    std::mem::forget(f);
+    l
+}
+pub static mut NOW_MS: u64 = 0;
+pub fn stub_now_ms_static() -> u64 {
+    unsafe { NOW_MS }
+}
+
+// C12: the lease a leader holds after a renewal anchored at `send_ts` is valid exactly for clock values before
+// send_ts + lease_duration, only for the leader's own term; and stepping down (become_follower) revokes it for
+// every clock value -- before any internal event is processed.
+#[kani::proof]
+#[kani::stub(std_catch_unwind, cu)]
+#[kani::stub(tracing::level_filters::LevelFilter::current, stub_level_off)]
+#[kani::stub(tracing::callsite::DefaultCallsite::register, stub_callsite_register)]
+#[kani::stub(std::time::Instant::now, fixed_std_now)]
+#[kani::stub(tokio::time::Instant::now, fixed_tokio_now)]
+#[kani::stub(vh::ElectionTimer::random_duration, fixed_random_duration)]
+#[kani::stub(std::hash::RandomState::new, stub_random_state_new)]
+#[kani::stub(std::fmt::format, stub_format)]
+#[kani::stub(d_engine_core::now_ms, stub_now_ms_static)]
+#[kani::stub(std::io::_print, stub_print)]
+#[kani::unwind(2)]
+pub fn c12_leader_lease_window_and_stepdown() {
+    let cfg = shared_default_config();
+    let mut l = mk_leader(&cfg);
+    let term: u64 = kani::any();
+    kani::assume(term < 65536); // terms below the documented 16-bit wrap of the lease word
+    l.shared_state.hard_state.current_term = term;
+    let send_ts: u64 = kani::any();
+    let lease: u64 = kani::any();
+    kani::assume(send_ts < (1u64 << 47) && lease < (1u64 << 47)); // deadline fits the 48-bit field (renew panics above)
+    l.verif_update_lease_timestamp(send_ts, lease);
+    let now: u64 = kani::any();
+    unsafe {
+        NOW_MS = now;
+    }
+    let valid = l.is_lease_valid();
+    kani::cover!(valid, "lease valid");
+    kani::cover!(!valid && lease > 0, "lease expired");
+    assert!(valid == (now < send_ts + lease), "C12:leader_lease_valid_outside_send_time_plus_lease_window");
+    // a different term never sees it
+    let other: u64 = kani::any();
+    kani::assume(other < 65536 && other != term);
+    assert!(!l.shared_state.lease.is_valid_for_leader(other, now), "C12:lease_valid_for_another_term");
+    // step-down
+    let lease_cell = l.shared_state.lease.clone();
+    let r = l.become_follower();
+    assert!(r.is_ok(), "C12:leader_cannot_step_down");
+    let any_now: u64 = kani::any();
+    assert!(!lease_cell.is_valid(any_now), "C12:lease_still_valid_after_step_down");
+    assert!(!lease_cell.is_valid_for_leader(term, any_now), "C12:lease_still_valid_for_leader_after_step_down");
+    std::mem::forget(r);
+    std::mem::forget(l);
+    std::mem::forget(cfg);
+}
+
+// C05: the leader's and the learner's purge guards (the follower's is in h_basic).
+std_harness!(c05_leader_purge_guard, {
+    let cfg = shared_default_config();
+    let mut l = mk_leader(&cfg);
+    let commit: u64 = kani::any();
+    l.shared_state.commit_index = commit;
+    let li = LogId { index: kani::any(), term: kani::any() };
+    let has_last: bool = kani::any();
+    let last = LogId { index: kani::any(), term: kani::any() };
+    let ok = l.can_purge_logs(if has_last { Some(last) } else { None }, li);
+    kani::cover!(ok && has_last, "purge allowed after an earlier purge");
+    kani::cover!(!ok && li.index < commit, "purge refused by monotonicity");
+    if ok {
+        assert!(li.index < commit, "C05:purge_only_strictly_below_commit_index");
+        if has_last {
+            assert!(last.index < li.index, "C05:purge_boundary_strictly_increases");
+        }
+    }
+    std::mem::forget(l);
+    std::mem::forget(cfg);
+});
+std_harness!(c05_learner_purge_guard, {
+    let cfg = shared_default_config();
+    let mut l = d_engine_core::learner_state::LearnerState::<VT>::new(1, cfg.clone());
+    let commit: u64 = kani::any();
+    l.shared_state.commit_index = commit;
+    let li = LogId { index: kani::any(), term: kani::any() };
+    let has_last: bool = kani::any();
+    let last = LogId { index: kani::any(), term: kani::any() };
+    let ok = l.can_purge_logs(if has_last { Some(last) } else { None }, li);
+    kani::cover!(ok && has_last, "purge allowed after an earlier purge");
+    kani::cover!(!ok && li.index < commit, "purge refused by monotonicity");
+    if ok {
+        assert!(li.index < commit, "C05:purge_only_strictly_below_commit_index");
+        if has_last {
+            assert!(last.index < li.index, "C05:purge_boundary_strictly_increases");
+        }
+    }
+    std::mem::forget(l);
+    std::mem::forget(cfg);
+});
+
+// C09: per-peer index bookkeeping on a real LeaderState (one tracked peer, id 2): match_index never decreases,
+// next_index never falls to or below what is already matched, a success never lowers next_index, a conflict may
+// lower it but not below match+1.
+std_harness!(c09_leader_index_updates, {
+    let cfg = shared_default_config();
+    let mut l = mk_leader(&cfg);
+    let a: u64 = kani::any();
+    let b: u64 = kani::any();
+    kani::assume(a < u64::MAX - 1 && b < u64::MAX - 1);
+    l.update_match_index(2, a).unwrap();
+    l.update_match_index(2, b).unwrap();
+    let m = l.match_index(2).unwrap_or(0);
+    kani::cover!(b < a, "late acknowledgement with a lower index");
+    assert!(m == if a > b { a } else { b }, "C09:match_index_decreased_or_not_recorded");
+    let x: u64 = kani::any();
+    l.update_next_index(2, x).unwrap();
+    let n = l.next_index(2).unwrap();
+    assert!(n >= m + 1, "C09:next_index_at_or_below_matched_index");
+    assert!(n == if x > m + 1 { x } else { m + 1 }, "C09:next_index_not_max_of_request_and_floor");
+    // a peer update coming from a response
+    let success: bool = kani::any();
+    let hint: u64 = kani::any();
+    kani::assume(hint >= 1 && hint < u64::MAX - 1);
+    let upd = PeerUpdate { match_index: if success { Some(hint - 1) } else { None }, next_index: hint, success };
+    l.verif_update_peer_index(2, &upd);
+    let m2 = l.match_index(2).unwrap_or(0);
+    let n2 = l.next_index(2).unwrap();
+    kani::cover!(success && hint < n, "stale success below the speculative next_index");
+    kani::cover!(!success && hint < n, "conflict moves next_index back");
+    assert!(m2 >= m, "C09:match_index_decreased_by_a_response");
+    assert!(n2 >= m2 + 1, "C09:next_index_at_or_below_matched_index");
+    if success {
+        assert!(n2 >= n, "C09:success_response_lowered_next_index");
+    } else {
+        assert!(m2 == m, "C09:conflict_response_changed_match_index");
+        assert!(n2 == if hint > m + 1 { hint } else { m + 1 }, "C09:conflict_hint_not_applied_with_floor");
+    }
+    std::mem::forget(l);
+    std::mem::forget(cfg);
+});
+
+// C29: a pending write batch (two requests, indexes s and s+1, no apply wait) is answered exactly when the commit
+// index reaches its LAST entry: not before, each sender once, with success.
+std_harness!(c29_drain_on_commit, {
+    let cfg = shared_default_config();
+    let mut l = mk_leader(&cfg);
+    let s: u64 = kani::any();
+    kani::assume(s >= 1 && s < u64::MAX - 4);
+    let (tx1, rx1) = MaybeCloneOneshot::new();
+    let (tx2, rx2) = MaybeCloneOneshot::new();
+    l.verif_insert_pending_client_writes(s, vec![tx1, tx2], false);
+    let c: u64 = kani::any();
+    l.verif_drain_pending_client_writes(c);
+    let r1 = poll_once(std::pin::pin!(rx1));
+    let r2 = poll_once(std::pin::pin!(rx2));
+    let answered1 = matches!(r1, Some(Ok(Ok(_))));
+    let answered2 = matches!(r2, Some(Ok(Ok(_))));
+    kani::cover!(c == s, "commit reached only the first entry of the batch");
+    kani::cover!(c >= s + 1, "commit reached the whole batch");
+    if c >= s + 1 {
+        assert!(answered1 && answered2, "C29:committed_batch_not_answered");
+        assert!(l.verif_pending_client_writes_len() == 0, "C29:answered_batch_still_pending");
+        if let Some(Ok(Ok(resp))) = &r1 {
+            assert!(resp.error == ErrorCode::Success, "C29:committed_write_answered_with_error");
+        }
+    } else {
+        assert!(!answered1 && !answered2, "C29:write_answered_before_its_batch_committed");
+        assert!(l.verif_pending_client_writes_len() == 1, "C29:uncommitted_batch_dropped");
+    }
+    std::mem::forget(r1);
+    std::mem::forget(r2);
+    std::mem::forget(l);
+    std::mem::forget(cfg);
+});
